@@ -25,12 +25,15 @@
    Time is logical: a Tick may be placed wherever the runtime could fire the ticker; the period
    itself is the pure function [period] below (milliseconds; [period_ns] in nanoseconds as the
    code computes it).  Timestamps are runtime and appear only as the flag "fresh". *)
-From Verif Require Import Base.Prelude.
+From Verif Require Import Base.Prelude Gen.GenConsts.
 
 (* ---- the period of the ticker: updateHeartbeatData ---- *)
-Definition period_of (two_s d : Z) : Z := if Z.ltb two_s d then d - two_s else d.
-Definition period (t_ms : Z) : Z := period_of 2000 t_ms.
-Definition period_ns (d_ns : Z) : Z := period_of 2000000000 d_ns.
+(* threshold and subtrahend are read from the source on every run (Gen/GenConsts.v, translator
+   harness/cmd/gen/consts.go): `if d > A*time.Second { d -= B*time.Second }` *)
+Definition period_of (thr sub d : Z) : Z := if Z.ltb thr d then d - sub else d.
+Definition period (t_ms : Z) : Z := period_of heartbeat_threshold_ms heartbeat_subtract_ms t_ms.
+Definition period_ns (d_ns : Z) : Z :=
+  period_of (heartbeat_threshold_ms * 1000000) (heartbeat_subtract_ms * 1000000) d_ns.
 
 (* ---- calls, program counters ---- *)
 Inductive call := CIsRunning | CStop | CStart | CAddFn | CRemoveEntity.
